@@ -3611,7 +3611,32 @@ impl ContinuityStore {
     }
 
     fn load_next_seq_for(&self, continuity_id: &str) -> Result<u64, io::Error> {
-        if let Ok(Some(last_seq)) = self.stream_cache.try_read_last_seq(continuity_id) {
+        let sidecar_last = self
+            .stream_cache
+            .try_read_last_seq(continuity_id)
+            .ok()
+            .flatten();
+
+        // The truth log decides the next seq whenever it can be read: a crash between the log
+        // append and the cache append leaves the sidecar one frame behind, and numbering from
+        // its tail would reuse a seq. This runs once per thread per process (the result is kept
+        // in `next_seq`).
+        if let Ok(events) = self
+            .event_log
+            .replay_stream(StreamKind::Continuity, continuity_id)
+        {
+            if let Some(last) = events.last() {
+                if sidecar_last != Some(last.seq) {
+                    // Caches that are behind (or missing) are rebuilt before they are appended to.
+                    self.stream_cache
+                        .rebuild_best_effort(continuity_id, &events);
+                }
+                return Ok(last.seq.saturating_add(1));
+            }
+        }
+
+        // The log cannot be read (or does not know the thread): keep working from the sidecar.
+        if let Some(last_seq) = sidecar_last {
             return Ok(last_seq.saturating_add(1));
         }
 
